@@ -30,8 +30,9 @@ WRAPPED = ("service", "received", "handle_read", "handle_write", "handle_close",
            "write_soon", "_flush_outbufs_below_high_watermark", "send_continue", "_flush_exception",
            "_flush_some", "_flush_some_if_lockable", "cancel")
 
-COVERED = {"worker_close", "flushed", "maint", "handle_close", "eof", "cancel_wc", "cancel_conn"}
-UNCOVERED = {"flush_err_io", "flush_err_w"}
+COVERED = {"worker_close", "flushed", "maint", "handle_close", "eof", "cancel_wc", "cancel_conn",
+           "flush_err_io", "flush_err_w"}
+UNCOVERED = set()
 
 
 class TracedList(list):
@@ -756,7 +757,7 @@ def abstract(world):
             val = snaps[i]["conn"]
             if ph == "start2":
                 emit(i, W)
-                st["ph"] = "task"
+                st["ph"] = "start3" if val else "task"
             elif ph == "keep":
                 emit(i, W)
                 st["ph"] = "keep_rq" if val else "keep_e"
@@ -768,6 +769,10 @@ def abstract(world):
                 pass
             else:
                 raise MapError("service: read of connected in phase %s" % ph)
+            continue
+        if kind == "R:will_close" and ph == "start3":
+            emit(i, W)       # `if self.connected and not self.will_close`
+            st["ph"] = "task"
             continue
         if kind == "acquire" and d == rlock:
             b = None
@@ -1064,7 +1069,7 @@ SIGNATURE = {
     "channel.HTTPChannel.writable":
         'R:total_outbufs_len R:will_close R:close_when_flushed',
     "channel.HTTPChannel.handle_write":
-        'if(R:requests) { ref:_flush_some_if_lockable } elif(R:total_outbufs_len) { '
+        'if(R:requests) { ref:_flush_some_if_lockable } elif(R:total_outbufs_len R:total_outbufs_len) { '
         'ref:_flush_some_if_lockable } else { } call:_flush_exception if(R:close_when_flushed '
         'R:total_outbufs_len) { W:close_when_flushed=False W:will_close=True } if(R:will_close) { '
         'call:handle_close }',
@@ -1082,7 +1087,7 @@ SIGNATURE = {
         'with(outbuf_lock) { for() { try { call:close } except(Exception) { } } W:connected=False } '
         'call:close',
     "channel.HTTPChannel.service":
-        'R:requests if() { } else { } try { if(R:connected) { call:service } else { } } '
+        'R:requests if() { } else { } try { if(R:connected R:will_close) { call:service } else { } } '
         'except(ClientDisconnected) { } except(Exception) { if() { if() { } else { } try { } except(KeyError) '
         '{ } try { call:service } except(ClientDisconnected) { } } else { } } if() { with(requests_lock) { '
         'W:close_when_flushed=True for(R:requests) { call:close } W:requests=[] } } else { if(R:requests) { '
@@ -1094,8 +1099,9 @@ SIGNATURE = {
         'if(R:connected) { } if() { } else { if() { } } if(R:total_outbufs_len) { '
         'call:_flush_exception(do_close=False) if(R:total_outbufs_len) { call:pull_trigger } } } }',
     "channel.HTTPChannel._flush_outbufs_below_high_watermark":
-        'if(R:total_outbufs_len) { with(outbuf_lock) { call:_flush_exception(do_close=False) if() { '
-        'call:pull_trigger } while(R:connected R:total_outbufs_len) { call:pull_trigger } } }',
+        'if(R:total_outbufs_len) { with(outbuf_lock) { if(R:connected) { } '
+        'call:_flush_exception(do_close=False) if() { call:pull_trigger } while(R:connected '
+        'R:total_outbufs_len) { call:pull_trigger } } }',
     "channel.HTTPChannel.cancel":
         'W:will_close=True W:connected=False W:requests=[]',
     "server.BaseWSGIServer.maintenance":
